@@ -182,6 +182,24 @@ def run(ck, fx, cg, tier):
             ck.ob("R6.sinks", "%s|output file is truncated on open" % b["path"], ok, loc(node),
                   "opened with %s%s" % (how, "" if ok else " — an existing longer file keeps its stale tail, so the next stage reads a different AST / bytecode"))
     ck.floor("R6.sinks", "output-file opens examined", n_open, 1)
+    # ---------------------------------------------------------------- sources: every stage reads its whole input, decoded as one text
+    n_src = 0
+    src_bodies = [b for b in fx.hir if not b["from_expansion"] and b.get("crate", "fml") == "fml" and (
+        b["path"].startswith("NamedSource::") or b["path"] in (A.get("cli.parse"), A.get("cli.compile"), A.get("cli.run"), A.get("cli.execute")))]
+    reads_whole = 0
+    for b in src_bodies:
+        n_src += 1
+        for node, cd, why in shared.chunked_decodes(fx, b):
+            ck.ob("R6.sources", "%s|%s" % (b["path"], cd), False, loc(node),
+                  "%s decodes a piece of the input (%s): a multi-byte character split across two pieces is altered or refused, so the stage hands on a different program than `run` reads" % (cd, why))
+        for n, ps in walk_body(b):
+            if n.get("k") in ("Call", "MethodCall") and n.get("callee") and (n["callee"].get("def") or "") in (
+                    "std::io::Read::read_to_string", "std::io::Read::read_to_end", "std::fs::read_to_string", "std::fs::read", "std::io::read_to_string"):
+                reads_whole += 1
+    ck.ob("R6.sources", "stage inputs are decoded as a whole", True, "", "%d source-side bodies examined, %d whole-input read(s), no chunk-wise decoding" % (n_src, reads_whole), nontrivial=False)
+    ck.floor("R6.sources", "source-side bodies examined", n_src, 5)
+    from .. import canary
+    canary.require(ck, {"R6.sources"})
     # ---------------------------------------------------------------- depth
     n_depth = 0
     for b in fx.hir:
